@@ -12,6 +12,7 @@ from . import spec as S
 from . import gen
 from . import oracles
 from . import twins
+from . import refmodel
 from .digest import shape
 from .history import History, INF
 from .runner import run_spec
@@ -391,6 +392,20 @@ def evaluate_case(prop, case):
         viols = fn(hist, stats)
     if prop == 'C08':
         viols = viols + twins.c08b(case, run, hist, stats)
+    # refinement against the reference model of the timed behaviour (exact
+    # mode, runs that returned): mismatches are reported under the property
+    # they belong to
+    if prop in refmodel.MODEL_PROPS and not run.knobs['stall_den'] \
+            and run.outcome in ('ret', 'exc'):
+        pred = refmodel.predict(case['spec'])
+        if pred is None:
+            stats['model_undecided_tie_or_window'] = 1
+        else:
+            stats['model_judged'] = 1
+            for mprop, clause, msg in refmodel.compare(hist, pred):
+                if mprop == prop:
+                    viols.append(oracles.Violation(prop, clause, 'refinement',
+                                                   msg))
     if prop in ('C11', 'C13') and 'nested_cancelled_in:main-loop' not in stats:
         # the reach probes of the sweep are computed by c11's stats
         if prop == 'C13':
